@@ -380,10 +380,23 @@ def _r4_widening(model: Model, run: Run) -> None:
                 # acceptable only when the command is known to carry no selector
                 # some guard on the way must read something other than the (empty) peer list and the handler set:
                 # that is what tells "no selector given" from "selector matched nothing"
-                def _other_names(t):
-                    return {x.id for x in ast.walk(t) if isinstance(x, ast.Name)} - {'peers', 'handler', '_v6_needs_peers'}
+                # some guard on the way must look at WHAT the command starts with (a token compared with a keyword, a
+                # selector predicate): that is what tells "no selector given" from "selector matched nothing"; the
+                # emptiness of the token list or a comment test says nothing about it
+                from ..alpha import Loc as _Loc
 
-                knows_no_selector = any(_other_names(t) for t, pol in g if not (isinstance(t, ast.Compare) and 'handler' in norm(t)))
+                _l = _Loc(model, fi)
+
+                def _looks_at_selector(t):
+                    e = _l.expanded(t)
+                    for x in ast.walk(e):
+                        if isinstance(x, ast.Compare) and any(isinstance(y, ast.Subscript) for y in ast.walk(x)):
+                            return True
+                        if isinstance(x, ast.Call) and 'selector' in norm(x.func):
+                            return True
+                    return False
+
+                knows_no_selector = any(_looks_at_selector(t) for t, pol in g)
                 only_empty = any(norm(t) == 'peers' and not pol for t, pol in g)
                 # is `peers` selector-derived at this point?
                 derived = any(isinstance(x, ast.Assign) and any(isinstance(e, ast.Name) and e.id == 'peers' for t in x.targets for e in ast.walk(t)) and x.lineno < n.lineno and 'dispatch(' in norm(x.value) for x in walk_no_nested(fi.node))
